@@ -25,6 +25,8 @@ const (
 	c12SigMaxTries = "c12-maxtries-not-restored"
 	c12SigNoAuth   = "c12-noauth-empty-header-name"
 	c12SigLastEmit = "c12-last-emit-not-reported"
+	// a readable 200 reply (of whatever size, however transmitted) reached the service as an error
+	c12Sig200Failed = "c12-200-reply-counted-as-failure"
 )
 
 type c12RefHook struct {
@@ -160,6 +162,10 @@ func (r *c12Ref) check(line string, obs c12Obs) []c12Fail {
 			got[p.Sym] = append(got[p.Sym], p)
 		}
 		missingNoAuth := map[string]bool{}
+		posted := map[string]bool{}
+		for _, p := range obs.Posts {
+			posted[p.Sym] = true
+		}
 		for sym, h := range r.hooks {
 			ps := got[sym]
 			delete(got, sym)
@@ -216,6 +222,9 @@ func (r *c12Ref) check(line string, obs c12Obs) []c12Fail {
 			if row.Errors != h.Trail || row.Active != h.Active {
 				sig := "c12-other:counter"
 				switch {
+				case outs[sym].ok() && row.Status == "err" && !missingNoAuth[sym] && posted[sym]:
+					// the target received the POST and answered a readable 200, yet the row records an error
+					sig = c12Sig200Failed
 				case missingNoAuth[sym]:
 					// consequence of the delivery that never left the client
 					sig = c12SigNoAuth
@@ -223,8 +232,14 @@ func (r *c12Ref) check(line string, obs c12Obs) []c12Fail {
 					// deactivated although fewer than max_tries consecutive failures were counted
 					sig = c12SigMaxTries
 				}
-				fs = append(fs, c12Fail{Sig: sig, What: "error count / active flag after the event differ from: count = trailing failures, active iff count < max_tries",
-					Expected: fmt.Sprintf("%s errors=%d active=%v (max_tries=%d)", sym, h.Trail, h.Active, r.max), Observed: fmt.Sprintf("errors=%d active=%v", row.Errors, row.Active)})
+				what := "error count / active flag after the event differ from: count = trailing failures, active iff count < max_tries"
+				if sig == c12Sig200Failed {
+					what = "a readable 200 reply was counted as a failed delivery (" + outs[sym].describe() + ")"
+					h.LastStatus = row.Status
+				}
+				fs = append(fs, c12Fail{Sig: sig, What: what,
+					Expected: fmt.Sprintf("%s errors=%d active=%v last=%s (max_tries=%d; target answered: %s)", sym, h.Trail, h.Active, outs[sym].status(), r.max, outs[sym].describe()),
+					Observed: fmt.Sprintf("errors=%d active=%v last=%s", row.Errors, row.Active, row.Status)})
 				// continue from what the implementation holds, so that one deviation is reported once
 				h.Trail, h.Active = row.Errors, row.Active
 			}
